@@ -12,12 +12,12 @@ ee065f4:C02
 1046ee8:C02
 4eb59d7:C12,C02,C14
 12b19a6:C02,C12,C14
-b475a6a+9cbccb0:C11
+c771c24+b475a6a+9cbccb0:C11
 5f18c17:C03
-b475a6a:C03
+@b475a6a:C03
 01a5b3a:C15
 1e71232:C03
-b475a6a+4ab7118:C04
+c771c24+b475a6a+4ab7118:C04
 5ed6555:C04
 f71b223:C04
 fabf450:C06
@@ -25,14 +25,18 @@ fa6515c:C13
 9e0b66c:C16
 f149e2e:C17
 4412a0c:C17
-b475a6a+554f99c:C18
-b475a6a+1a12fdf:C18
-cc1a74c:C18
-b475a6a+879059a:C18
+c771c24+b475a6a+554f99c:C18
+c771c24+b475a6a+1a12fdf:C18
+c771c24+cc1a74c:C18
+c771c24+b475a6a+879059a:C18
 593f13e:C19
 ebca082:C11
 1c7ddb0:C11
 c71c10d:C11
+c771c24+4f1e3aa:C18
+c771c24:C03
+a9cca78:C03
+d8b1973:C03
 "
 if [ -n "$(git -C /repo status --porcelain)" ]; then echo "/repo is not clean"; exit 2; fi
 mkdir -p selftest
@@ -41,15 +45,32 @@ OUT=selftest/revert_report.txt
 fail=0
 for line in $MAP; do
   c="${line%%:*}"; checks="${line#*:}"
+  # "x+y+z": z can only be reverted after the later commits x, y (which rewrote the same lines) are
+  # reverted too; the check must be silent with only x, y reverted, so that the alarm is z's.
+  # "@c": the later commits build on c's code; selftest/patches/c.diff takes c's repair out by hand.
+  pre=""; patch=""
+  case "$c" in @*) c="${c#@}"; patch="selftest/patches/$c.diff";; *+*) pre="${c%+*}"; c="${c##*+}";; esac
   if [ $# -gt 0 ]; then case " $* " in *" $c "*) ;; *) continue;; esac; fi
-  # "x+y": y can only be reverted after the later commit x (which rewrote the same lines) is reverted too
-  pre=""; case "$c" in *+*) pre="${c%%+*}"; c="${c##*+}";; esac
   subj="$(git -C /repo log -1 --format=%s "$c")"
-  if [ -n "$pre" ] && ! git -C /repo revert -n "$pre" >/dev/null 2>&1; then echo "$c REVERT-CONFLICT(pre $pre) $subj" | tee -a "$OUT"; git -C /repo reset -q --hard HEAD; fail=1; continue; fi
-  if ! git -C /repo revert -n "$c" >/dev/null 2>&1; then echo "$c REVERT-CONFLICT $subj" | tee -a "$OUT"; git -C /repo reset -q --hard HEAD; fail=1; continue; fi
+  bad=""
+  for pc in ${pre//+/ }; do
+    git -C /repo revert -n "$pc" >/dev/null 2>&1 || { bad="$pc"; break; }
+  done
+  if [ -n "$bad" ]; then echo "$c REVERT-CONFLICT(pre $bad) $subj" | tee -a "$OUT"; git -C /repo reset -q --hard HEAD; fail=1; continue; fi
+  base=""
+  if [ -n "$pre" ]; then
+    for chk in ${checks//,/ }; do
+      out="$(VERIF_HANG_S=20 ./run.sh "$chk" quick 2>/dev/null)"; rc=$?
+      [ $rc -eq 0 ] || base="$base $chk"
+    done
+  fi
+  if [ -n "$patch" ]; then
+    git -C /repo apply "$PWD/$patch" || { echo "$c PATCH-DOES-NOT-APPLY $subj" | tee -a "$OUT"; git -C /repo reset -q --hard HEAD; fail=1; continue; }
+  elif ! git -C /repo revert -n "$c" >/dev/null 2>&1; then echo "$c REVERT-CONFLICT $subj" | tee -a "$OUT"; git -C /repo reset -q --hard HEAD; fail=1; continue; fi
   tests="tests-pass"
   (cd /repo && go test -vet=off -count=1 ./... >/dev/null 2>&1) || tests="TESTS-FAIL"
   for chk in ${checks//,/ }; do
+    case " $base " in *" $chk "*) echo "$c $chk UNATTRIBUTABLE (alarm already with only $pre reverted) | $subj" | tee -a "$OUT"; fail=1; continue;; esac
     out="$(VERIF_HANG_S=20 ./run.sh "$chk" quick 2>/dev/null)"; rc=$?
     if [ $rc -eq 1 ] && echo "$out" | grep -q "^VIOLATION property=$chk "; then res=DETECTED; else res="MISSED(rc=$rc)"; fail=1; fi
     echo "$c $chk $res $tests | $subj" | tee -a "$OUT"
